@@ -8,6 +8,7 @@ import (
 	"encoding/binary"
 	"errors"
 	"fmt"
+	"sync/atomic"
 	"time"
 
 	header "github.com/celestiaorg/go-header"
@@ -22,7 +23,18 @@ const (
 	FlagBadValidate  = 1 << 0 // Validate() fails
 	FlagSoftType     = 1 << 1 // the type's Verify reports every rejection as a soft *header.VerifyError, adjacent or not
 	FlagLenientOrder = 1 << 2 // the type's Verify does not look at heights at or below its own (it leaves that to the library)
+	// The three flags below model a header type with a crashing code path (nil dereference on
+	// attacker-chosen content). They act only while ArmPanics(true) is in force, so that fuzz
+	// targets and oracles decoding arbitrary bytes never meet them by accident.
+	FlagPanicValidate = 1 << 3 // Validate() panics
+	FlagPanicVerify   = 1 << 4 // the type's Verify panics when handed this header as the untrusted one
+	FlagPanicDecode   = 1 << 5 // UnmarshalBinary panics after reading the flags
 )
+
+var panicsArmed atomic.Bool
+
+// ArmPanics switches the FlagPanic* flags on or off for the whole process.
+func ArmPanics(on bool) { panicsArmed.Store(on) }
 
 var (
 	ErrLineage  = errors.New("vh: different validator lineage")
@@ -92,6 +104,9 @@ func (h *Header) Verify(u *Header) error {
 
 // TypeVerify is the default type-level verification.
 func TypeVerify(d, u *Header) error {
+	if u.Flags&FlagPanicVerify != 0 && panicsArmed.Load() {
+		panic("vh: Verify crashes on this header")
+	}
 	if u.H <= d.H {
 		if d.Flags&FlagLenientOrder != 0 {
 			if u.Lineage != d.Lineage {
@@ -117,6 +132,9 @@ func TypeVerify(d, u *Header) error {
 }
 
 func (h *Header) Validate() error {
+	if h.Flags&FlagPanicValidate != 0 && panicsArmed.Load() {
+		panic("vh: Validate crashes on this header")
+	}
 	if h.Flags&FlagBadValidate != 0 {
 		return ErrValidate
 	}
@@ -171,6 +189,9 @@ func (h *Header) UnmarshalBinary(b []byte) error {
 	p += 8
 	salt := binary.BigEndian.Uint32(b[p:])
 	p += 4
+	if b[p]&FlagPanicDecode != 0 && panicsArmed.Load() {
+		panic("vh: UnmarshalBinary crashes on these bytes")
+	}
 	*h = Header{Chain: chain, H: hh, T: tt, Prev: prev, Lineage: lin, Span: span, Salt: salt, Flags: b[p]}
 	h.Seal()
 	return nil
